@@ -279,9 +279,11 @@ def _cond_work(progs):
     d = env.fresh_dir("c17c")
     judged = 0
     fails = []
+    gjobs = []
     for dirs in progs:
         program = cond.interleave([tuple(x) for x in dirs])
         exps = [c01.expected(program, c[2]) for c in c01.CONFIGS]
+        gjobs += [(program, ci, e) for ci, e in enumerate(exps) if e is not None]
         good = [c for c, e in zip(c01.CONFIGS, exps) if e is not None]
         if not good:
             continue
@@ -300,7 +302,9 @@ def _cond_work(progs):
             seen.add(f.key())
             f["kind"] = "fortran-" + f["kind"]
             out.append(f)
-    return judged, len(fails), out
+    from ..core import gcc as G
+    gst = c01._gcc_validate(gjobs, tool="gfortran") if G.GFORTRAN else (0, 0, [])
+    return judged, len(fails), out, gst
 
 
 def _inherit(_):
@@ -358,13 +362,14 @@ def run(tier):
         "E_fortran_file_source": {"texts": t1, "well_formed": wf1}, "E_parse_file": {"texts": t2, "well_formed": wf2},
         "E_extension": {"prefix": pref, "len": e_len + 1, "texts": ext[0], "well_formed": ext[1]},
         "C_conditionals": {"programs": len(progs), "pairs_judged": cj},
+        "oracle_gfortran": {"pairs_checked": sum(r[3][0] for r in cres), "disagreements": sum(r[3][1] for r in cres), "examples": [x for r in cres for x in r[3][2]][:3]},
         "informational_language_inheritance": "holds" if not inh else "a header that is itself a code-base member is scanned with the rules of its own extension, not of the including Fortran file (not part of C17's statement; not a violation)",
         "failing_cases": len(uniq) + sum(r[1] for r in cres),
         "samples": sinfo["samples"] + [{"text": "a = 'x!y' // &\n  & 'z' ! c\n!$omp end\n"}],
         "exhaustive": bool(sinfo["frontier_empty"]),
     })
     rep.assumptions = ["alphabet {a blank ! & ' \" $ / # newline}; backslash-newline splicing inside Fortran text, fixed form, tabs and ';' are outside",
-                       "reference = ref/fscan.py (free-form rules of the Fortran standard); conditional selection = ref/cond.py, validated against gcc -E in C01 (gfortran -cpp uses the same preprocessor)"]
+                       "reference = ref/fscan.py (free-form rules of the Fortran standard); conditional selection = ref/cond.py, validated here against `gfortran -cpp -E` on every judged (program, configuration) and against gcc -E in C01"]
     return rep
 
 
